@@ -52,6 +52,13 @@ KF_NOLOC = 'C14/no-location'
 NOLOC_EXTRACTORS = {'chrome/extensions', 'dotnet/pe'}
 KF_JAR = 'C14/jar-empty-artifact'
 KF_DETS = 'C14/finding-detectors-dropped'
+# extractors that emit an entry of their input which has no name (or, renv.lock, no version) as a package: one key per extractor
+NAMELESS = {'r/renvlock': 7, 'swift/packageresolved': 8, 'python/pipfilelock': 9, 'dotnet/packageslockjson': 10, 'javascript/bunlock': 11,
+            'javascript/packagelockjson': 12, 'os/cos': 13, 'os/kernel/module': 14}
+
+
+def kf_nameless(ex):
+    return 'C14/nameless-entry-' + ex.replace('/', '-')
 KF_NILSEV = 'C14/finding-nil-severity-panics'
 
 
@@ -130,7 +137,10 @@ def run(ctx):
                        'standalone extractors (they read the running system) are covered by the type table only, not by the harvest',
                        'SPDX output summarises locations in free text and uses the purl\'s name/version by design; compared fields: name, version, purl locator, package count',
                        'Go map iteration order: GetAll / GetAllOfType compared as sets']
-    ctx.rule = ('fname = identities derived from FILE / DIRECTORY names (the boundary stream substitutes into file content): 27 jar file names and 9 jars nested in a jar (nothing / separators only / purl '
+    ctx.rule = ('harvestv / boundaryv = the 32 extractors with an exported Config struct (zz_configs_gen.go), every option switched one at a time (bool flipped, all bools flipped, integer limits 1 / 2^30), '
+                'over ALL fixtures of the extractor and the 18 boundary names on up to 2 package-yielding fixtures per variant; jsonmut = up to 2 package-yielding JSON fixtures of each of the 16 extractors '
+                'that read JSON, one member deleted / one key made empty / one string made empty at up to 70 places (every field of small objects, two members of large maps, first array element, depth <= 6); '
+                'fname kmod = the kernel-module fixture with the `name=` key of .modinfo replaced; fname = identities derived from FILE / DIRECTORY names (the boundary stream substitutes into file content): 27 jar file names and 9 jars nested in a jar (nothing / separators only / purl '
                 'syntax characters before the version; java/archive without pom.properties), 9 nix store directory names, 14 homebrew cellar directory names, each created for real in a scratch tree, real '
                 'Extract, then the same strict chain as harvest; '
                 'result = 44 fixed results (every status / type / severity constant and the first value past it, every nil, error positions, int32 wrap) + 1 in 6 random cases: real ScanResultToProto vs the '
@@ -174,7 +184,7 @@ def run(ctx):
 
     def nontrivial(case, fi, fm):
         t = case.split(' ')
-        if t[0] in ('harvest', 'layout', 'boundary', 'fname'):
+        if t[0] in ('harvest', 'layout', 'boundary', 'fname', 'harvestv', 'boundaryv', 'jsonmut'):
             return fi.get('pk', '0') not in ('0', '')
         if t[0] == 'accept':
             return t[1] == 'e'
@@ -187,14 +197,26 @@ def run(ctx):
 
     def oracle(case, fi, fm):
         t = case.split(' ')
+        variant = ''
+        if t[0] in ('harvestv', 'boundaryv'):      # the same judgement as harvest / boundary, for an extractor built with non-default options
+            variant = ' [extractor configured with %s]' % unhex(t[2])
+            t = [t[0][:-1], t[1]] + t[3:]
+        v = oracle_(t, case, fi, fm)
+        return (v + variant) if v else v
+
+    def oracle_(t, case, fi, fm):
         if fi.get('_') == 'panic':
             return 'the harness caught a panic outside the guarded conversions on ' + case
         if t[0] == 'harvest':
             dropped_meta.update(unhex(x) for x in fi.get('drop', '-').split(',') if x != '-')
-            totals['fixtures'] += 1
-            totals['packages'] += int(fi.get('pk', '0') or 0)
-            totals['purls'] += int(fi.get('purls', '0') or 0)
-            totals['extractors'].add(t[1])
+            if case.startswith('harvest '):
+                totals['fixtures'] += 1
+                totals['packages'] += int(fi.get('pk', '0') or 0)
+                totals['purls'] += int(fi.get('purls', '0') or 0)
+                totals['extractors'].add(t[1])
+            else:
+                totals['variant_runs'] = totals.get('variant_runs', 0) + 1
+                totals['variant_packages'] = totals.get('variant_packages', 0) + int(fi.get('pk', '0') or 0)
             iss = issues_of(fi)
             if iss:
                 bad = [unhex(b) for b in fi.get('bad', '-').split(',') if b != '-']
@@ -210,6 +232,17 @@ def run(ctx):
                 return 'name %r substituted into fixture %s of %s (names at the syntax boundary of the purl namespace/name split): %s%s' % (
                     unhex(t[3]), unhex(t[2]), unhex(t[1]), ', '.join(iss), (' — location | package | purl | issue: ' + ' ;; '.join(bad)) if bad else '')
             return None
+        if t[0] == 'jsonmut':
+            totals['jsonmut'] = totals.get('jsonmut', 0) + 1
+            totals['jsonmut_hit'] = totals.get('jsonmut_hit', 0) + (fi.get('hit') == '1')
+            iss = issues_of(fi)
+            if iss:
+                bad = [unhex(b) for b in fi.get('bad', '-').split(',') if b != '-']
+                op, _, path = unhex(t[3]).partition('@')
+                return 'fixture %s of %s with %s at %s: %s%s' % (unhex(t[2]), unhex(t[1]),
+                    {'del': 'the member DELETED', 'key0': 'the member\'s KEY made empty', 'str0': 'the string value made EMPTY'}.get(op, op), path or '/', ', '.join(iss),
+                    (' — location | package | purl | issue: ' + ' ;; '.join(bad)) if bad else '')
+            return None
         if t[0] == 'fname':
             totals['fname'] = totals.get('fname', 0) + 1
             totals['fname_pk'] = totals.get('fname_pk', 0) + int(fi.get('pk', '0') or 0)
@@ -217,8 +250,9 @@ def run(ctx):
             if iss:
                 bad = [unhex(b) for b in fi.get('bad', '-').split(',') if b != '-']
                 where = {'jar': 'a jar without pom.properties / manifest named %r', 'jarnest': 'a jar without pom.properties / manifest stored as %r inside outer-3.0.jar',
-                         'nix': 'a nix store directory nix/store/%r', 'brew': 'a homebrew cellar directory Cellar/%r/1.0'}.get(t[1], '%r') % unhex(t[2])
-                return '%s (identity derived from the file name): %s%s' % (where, ', '.join(iss), (' — location | package | purl | issue: ' + ' ;; '.join(bad)) if bad else '')
+                         'nix': 'a nix store directory nix/store/%r', 'brew': 'a homebrew cellar directory Cellar/%r/1.0',
+                         'kmod': 'the kernel-module fixture with the .modinfo key `name=` replaced by %r'}.get(t[1], '%r') % unhex(t[2])
+                return '%s (identity derived from %s): %s%s' % (where, 'the module info' if t[1] == 'kmod' else 'the file name', ', '.join(iss), (' — location | package | purl | issue: ' + ' ;; '.join(bad)) if bad else '')
             return None
         if t[0] == 'layout':
             dropped_meta.update(unhex(x) for x in fi.get('drop', '-').split(',') if x != '-')
@@ -318,6 +352,8 @@ def run(ctx):
 
     def finding_class(case, fi, fm):
         t = case.split(' ')
+        if t[0] in ('harvestv', 'boundaryv'):
+            t = [t[0][:-1], t[1]] + t[3:]
         if t[0] == 'result' and fm and len(t) == 8:
             fnds = [] if t[7] == '_' else [f.split(';') for f in t[7].split(',')]
             # class predicate: the conversion panics, the specification does not, and some finding with advisory and id has no severity
@@ -330,6 +366,16 @@ def run(ctx):
                     w[6] = ','.join(';'.join(f.split(';')[:3] + ['_']) for f in w[6].split(',')) if w[6] != '_' else '_'
                     if '|'.join(w) == fi.get('gen'):
                         return KF_DETS
+        # class predicate (one key per extractor of NAMELESS): a structurally mutated document (jsonmut) / a module without name= (fname kmod);
+        # the only issues are the empty name and the unparsable purl, and every witness is a nameless package — or, for renv.lock, a
+        # version-less one whose purl pkg:cran/<name> the purl library refuses ("version is required")
+        ex = unhex(t[1]) if t[0] == 'jsonmut' else 'os/kernel/module' if t[:2] == ['fname', 'kmod'] else None
+        if ex in NAMELESS and issues_of(fi) and set(issues_of(fi)) <= {'empty-name', 'purl-rejected'}:
+            wit = [unhex(b).split(' | ') for b in fi.get('bad', '-').split(',') if b != '-']
+            if wit and all(len(w) == 4 and (w[1].startswith('@') or w[1] == '@' or (ex == 'r/renvlock' and w[1].endswith('@') and w[2].startswith('pkg:cran/'))) for w in wit):
+                return kf_nameless(ex)
+        if t[0] == 'jsonmut' and issues_of(fi) == ['no-location'] and unhex(t[1]) in NOLOC_EXTRACTORS:
+            return KF_NOLOC
         # class predicate: a jar FILE NAME with nothing before the version; the only issues are the empty name and its unparsable purl,
         # and every witness is a nameless package whose purl is pkg:maven/@<version>
         if t[0] == 'fname' and t[1] in ('jar', 'jarnest') and set(issues_of(fi)) == {'empty-name', 'purl-rejected'}:
@@ -353,6 +399,8 @@ def run(ctx):
 
     def classify(case, fi, fm):
         t = case.split(' ')
+        if t[0] in ('harvestv', 'boundaryv', 'jsonmut'):
+            return t[0] + ':' + ('no-packages' if fi.get('pk') == '0' else 'issues=' + fi.get('issues', '?'))
         if t[0] == 'harvest':
             return 'harvest:' + ('no-packages' if fi.get('pk') == '0' else 'issues=' + fi.get('issues', '?'))
         if t[0] == 'layout':
@@ -388,6 +436,8 @@ def run(ctx):
     if rejected_consts:
         ctx.notes.append('purl type constants declared in purl.go that purl.FromString rejects (informational: no built-in ToPURL emits them): ' + ', '.join(rejected_consts))
     ctx.extra['layout_packages'] = totals.get('layout_packages', 0)
+    ctx.extra['non_default_options'] = {'fixture_runs': totals.get('variant_runs', 0), 'packages_emitted': totals.get('variant_packages', 0)}
+    ctx.extra['structural_json_documents'] = {'cases': totals.get('jsonmut', 0), 'path_present': totals.get('jsonmut_hit', 0)}
     ctx.extra['file_name_identities'] = {'cases': totals.get('fname', 0), 'packages_emitted': totals.get('fname_pk', 0)}
     ctx.extra['boundary_names'] = {'cases': totals.get('boundary', 0), 'name_substituted': totals.get('boundary_hit', 0), 'packages_emitted': totals.get('boundary_pk', 0)}
     nopk = ctx.dist.get('harvest:no-packages', 0)
@@ -403,7 +453,7 @@ def run(ctx):
             ctx.violation('known finding %s no longer reproduces from the fixtures: update known_findings.txt' % KF_GOCASE, ['# ' + KF_GOCASE], found_input=False, name='stale-C14-golang-case')
         if KF_NOLOC in ctx.known and KF_NOLOC not in ctx.known_hits:
             ctx.violation('known finding %s no longer reproduces from the fixtures: update known_findings.txt' % KF_NOLOC, ['# ' + KF_NOLOC], found_input=False, name='stale-C14-no-location')
-        for kf in (KF_JAR, KF_DETS, KF_NILSEV):
+        for kf in (KF_JAR, KF_DETS, KF_NILSEV) + tuple(kf_nameless(e) for e in NAMELESS):
             if kf in ctx.known and kf not in ctx.known_hits:
                 ctx.violation('known finding %s no longer reproduces: update known_findings.txt' % kf, ['# ' + kf], found_input=False, name='stale-' + kf.replace('/', '-'))
     if not proofs_ok:
